@@ -1,7 +1,27 @@
+//! sim_status: E-SIM checks of deadline statuses (C30), worker sleep bounds (C31), status conditions
+//! and wait sets (C32) and listener dispatch (C33).
+
+mod c30;
+mod c31;
+mod c32;
+mod c33;
+mod common;
+
+use vcore::Ctx;
+
 #[global_allocator]
 static A: vcore::alloc::Counting = vcore::alloc::Counting;
 
 fn main() {
-    eprintln!("engine sim_status: not built yet");
-    std::process::exit(2);
+    let ctx = Ctx::from_args();
+    match ctx.id.as_str() {
+        "C30" => c30::main(&ctx),
+        "C31" => c31::main(&ctx),
+        "C32" => c32::main(&ctx),
+        "C33" => c33::main(&ctx),
+        other => {
+            eprintln!("sim_status: unknown property id {other}");
+            std::process::exit(2);
+        }
+    }
 }
